@@ -1287,6 +1287,7 @@ func bnFreeRun(id int, seed int64, minEv, maxEv int, profile string) (out bnPath
 	early := rng.Intn(4) == 0 // emitter starts before anybody has subscribed
 	if profile == "stop" {
 		stopAt, burst, early = 1+rng.Intn(nev), true, false
+		reorgs = false // the screen of this batch looks for non-consecutive receive sequences
 		modes = []string{"fast", "fast", "fast", "slow"}
 	}
 	plans := make([]bnSubPlan, n)
